@@ -29,7 +29,7 @@ RULE = (
     "query digest)."
 )
 TIERS = {
-    "quick": {"runs": 200, "budget_s": 55, "min_runs": 25, "run_timeout_s": 240},
+    "quick": {"runs": 200, "budget_s": 45, "min_runs": 25, "run_timeout_s": 240},
     "thorough": {"runs": 20000, "budget_s": 780, "min_runs": 500, "run_timeout_s": 600},
 }
 COMPONENTS_REAL = [
